@@ -257,7 +257,10 @@ func c08Steps(args []string) []c08Step {
 	return out
 }
 
-// documented maximum number of arguments of the standard filters
+// c08FilterArity, when the build carries the export overlay (tag verifx), reads a filter's real signature.
+var c08FilterArity func(e *liquid.Engine, name string) (maxArgs int, variadic bool, ok bool)
+
+// fallback table (used only when the overlay is unavailable): maximum number of arguments of the standard filters
 var c08Arity = map[string]int{
 	"default": 1, "json": 0, "compact": 0, "concat": 1, "join": 1, "map": 1, "reverse": 0, "sort": 1, "first": 0, "last": 0, "uniq": 0,
 	"date": 1, "abs": 0, "ceil": 0, "floor": 0, "modulo": 1, "minus": 1, "plus": 1, "times": 1, "divided_by": 1, "round": 1, "size": 0,
@@ -527,6 +530,15 @@ func c08Families(tier string) []explore.Family {
 		}
 		f := stdf[i]
 		n, known := c08Arity[f]
+		if c08FilterArity != nil {
+			if m, variadic, ok := c08FilterArity(c08.eng, f); ok {
+				if variadic {
+					r.Class("arity/variadic")
+					return
+				}
+				n, known = m, true
+			}
+		}
 		if !known {
 			r.Class("arity/unknown-filter-in-tree:" + f)
 			return
@@ -709,7 +721,7 @@ func init() {
 		Assumptions: []string{
 			"unspecified: float array indices, string.size/first/last as properties, indexing a string, array[\"first\"], map[\"size\"] without such key, indexing or properties of ranges",
 			"filter semantics are not modelled here (C15-C17 do that): pipelines are checked by the assign-decomposition law only",
-			"maximum arity of each standard filter is the table in mc/props/c08.go (taken from the filter signatures)",
+			"the maximum arity of each standard filter is read from its registered Go function through a build-time overlay that only adds an accessor (tools/overlay.sh); the table in mc/props/c08.go is the fallback",
 		},
 		Setup: func(string) {
 			c08.eng = liquid.NewEngine()
